@@ -667,5 +667,29 @@ func main() {
 				return runCaseWS(roots, gmp, bs, events, r.Intn(events))
 			})
 		}
+		// 5. subscriptions whose every event leaves pending work behind: an asynchronous object
+		// field (first wave) with a Batch or Go child next to a failing non-null child (second wave:
+		// the execution returns without another idle round); 2-3 events, each event recorded once
+		for _, pk := range []kindT{kBatch, kGo} {
+			for _, ck := range []struct {
+				kind kindT
+				bkey int
+			}{{kBatch, 0}, {kBatch, 1}, {kGo, 0}} {
+				for events := 2; events <= 3; events++ {
+					for which := 0; which < events; which++ {
+						pk, ck, events, which := pk, ck, events, which
+						gmp := gmps[idx%len(gmps)]
+						idx++
+						h.Case(func(r *rng.R) sexp.Node {
+							parent := &fnode{kind: pk, bkey: 0, mode: mFree, children: []*fnode{
+								{kind: ck.kind, bkey: ck.bkey, leaf: true, mode: mLate, rank: 1},
+								{kind: kSync, leaf: true, nonnull: true, outcome: 1},
+							}}
+							return runCaseWS([]*fnode{parent}, gmp, [nBatch]int{}, events, which)
+						})
+					}
+				}
+			}
+		}
 	})
 }
